@@ -56,6 +56,7 @@ inductive Tok
   | comment (x : Str)
   | pi (x : Str)
   | decl (x : Str)
+  | mdecl (x : Str)                          -- a marked section `<![…]>` (sgmllib's `unknown_decl`): no handler anywhere, nothing is emitted
 deriving Repr
 
 inductive Piece
@@ -234,6 +235,7 @@ def step (t : Tables) (o : Ops) (isHtml : Bool) (st : St) : Tok → St × Option
   | .comment c => (st, some (.comment c))
   | .pi _ => (st, none)
   | .decl _ => (st, none)
+  | .mdecl _ => (st, none)
 
 def run (t : Tables) (o : Ops) (isHtml : Bool) : St → List Tok → List Piece
   | _, [] => []
@@ -296,5 +298,6 @@ def resolverStep (t : Tables) (relTable : List (Str × Str)) (resolve : Str → 
   | .comment c => s "<!--" ++ c ++ s "-->"
   | .pi x => s "<?" ++ x ++ ['>']
   | .decl x => s "<!" ++ x ++ ['>']
+  | .mdecl _ => []
 
 end FeedVerif.San
